@@ -194,6 +194,10 @@ impl Placer {
 //@   after /let childloc = child\.loc\.abs_mut\(\)\?;/
 //|             let ghost cx = childloc.x; let ghost cy = childloc.y;
 //|             proof { assert(cx.num == fl[vp_k as int - 1].x && cy.num == fl[vp_k as int - 1].y && cx.dir == Dir::Horiz && cy.dir == Dir::Vert); }
+//@   before /childloc\.x \*= -1_isize;/
+//|                 proof { assert(childloc.x == cx && -0x100_0000_0000 <= cx.num <= 0x100_0000_0000); assert(cx.num * (-1_isize) == -(cx.num as int)) by (nonlinear_arith); }
+//@   before /childloc\.y \*= -1_isize;/
+//|                 proof { assert(childloc.y == cy && -0x100_0000_0000 <= cy.num <= 0x100_0000_0000); assert(cy.num * (-1_isize) == -(cy.num as int)) by (nonlinear_arith); }
 //@   after /childloc\.x \*= -1_isize;/
 //|                 proof { assert(childloc.y == cy); assert(childloc.x.num == -cx.num && childloc.x.dir == cx.dir); }
 //@   after /childloc\.y \*= -1_isize;/
